@@ -66,6 +66,10 @@ def shape_size_after_array(ast):
         for f in fs:
             if f["kind"] == "array_field":
                 seen.add(f["id"])
+            if f["kind"] == "payload_field":
+                seen.add("_payload_")
+            if f["kind"] == "body_field":
+                seen.add("_body_")
             if f["kind"] in ("size_field", "count_field", "elementsize_field") and f.get("field_id") in seen:
                 return True
     return False
@@ -156,8 +160,8 @@ def shape_unsized_payload_then_dynamic(ast):
         for i, f in enumerate(fs):
             if f["kind"] in ("payload_field", "body_field") and not ({"_payload_", "_body_"} & sized):
                 for g in fs[i + 1:]:
-                    if g.get("cond") or g["kind"] in ("padding_field",) or (g["kind"] == "array_field" and g.get("size") is None) \
-                            or g["kind"] == "typedef_field":
+                    if g.get("cond") or g["kind"] in ("padding_field",) or g["kind"] == "typedef_field" or \
+                            (g["kind"] == "array_field" and (g.get("size") is None or g.get("type_id"))):
                         return True
     return False
 
@@ -168,6 +172,27 @@ def shape_elementsize_of_non_struct(ast):
         fs = _expand(ast, d.get("fields", []) or [])
         es = {f["field_id"] for f in fs if f["kind"] == "elementsize_field"}
         if any(f["kind"] == "array_field" and f["id"] in es and f.get("type_id") not in structs for f in fs):
+            return True
+    return False
+
+
+def shape_constraint_on_flag(ast):
+    """a constraint (of a child or of a group use) on a field that conditions an optional field"""
+    flags = {f["cond"]["id"] for d in ast["declarations"] for f in d.get("fields", []) or [] if f.get("cond")}
+    for d in ast["declarations"]:
+        if any(c["id"] in flags for c in d.get("constraints", []) or []):
+            return True
+        for f in d.get("fields", []) or []:
+            if f["kind"] == "group_field" and any(c["id"] in flags for c in f.get("constraints", []) or []):
+                return True
+    return False
+
+
+def shape_payload_modifier_without_size(ast):
+    for d in ast["declarations"]:
+        fs = _expand(ast, d.get("fields", []) or [])
+        if any(f["kind"] == "payload_field" and f.get("size_modifier") for f in fs) and \
+                not any(f["kind"] == "size_field" and f.get("field_id") == "_payload_" for f in fs):
             return True
     return False
 
@@ -297,7 +322,9 @@ def run(tier, seed):
     ok_extra = ad.run_impl([t for _, t in wf_extra], "analyze")
     pool += [x for x, r in zip(wf_extra, ok_extra) if r[0] == "ok"]
     pool += [(n, pdlast.to_pdl(a)) for n, a in rustcodec.modules_for(tier, seed)]
-    rc = rustcodec.collect(tier, seed)      # builds the harness crate, hence pdl-runtime, from the working tree
+    # the quick Rust corpus in both tiers (the thorough one is built and run by the Rust family,
+    # C01..C06: a build failure there is reported there); builds pdl-runtime from the working tree
+    rc = rustcodec.collect("quick", seed)
     rust_texts = {}
     for backend in BACKENDS:
         reqs = [(f"g{i}", "generate", t, backend) for i, (_, t) in enumerate(pool)]
